@@ -76,7 +76,7 @@ def alphabet(cls_name, tier="quick"):
         elif m == "compute_form_factor_amplitude":
             A += [("call", m, "q"), ("call", m, "q_density")]
         elif m == "distance_to_surface":
-            A += [("call", m, "angles")]
+            A += [("call", m, "angles"), ("call", m, "angles_wide")]
         elif m == "get_face_area":
             A += [("call", m, v) for v in ("none", "int", "list", "array", "out_of_range")]
         elif m == "get_dihedral":
@@ -103,6 +103,36 @@ def _alpha(cls, tier):
     if k not in _ALPHA:
         _ALPHA[k] = alphabet(cls, tier)
     return _ALPHA[k]
+
+
+_ARR = {}
+
+
+def _array_getters(cls, base):
+    """Properties of the class whose value contains an ndarray (found by reading
+    them once on a built base shape)."""
+    if cls in _ARR:
+        return _ARR[cls]
+    out = []
+    try:
+        obj = gen.build(base)
+        props, _, _ = observe.members(type(obj))
+        for p in props:
+            if p in observe.DEPRECATED:
+                continue
+            try:
+                with warnings.catch_warnings():
+                    warnings.simplefilter("ignore")
+                    found = []
+                    arrays_in(getattr(obj, p), found)
+                if found:
+                    out.append(p)
+            except Exception:  # noqa: BLE001
+                pass
+    except Exception:  # noqa: BLE001
+        pass
+    _ARR[cls] = out
+    return out
 
 
 def _mk_step(rng, q, fault_rate):
@@ -155,7 +185,18 @@ def gen_spec(seed, index, tier):
     ops = rng.sub("ops")
     A = _alpha(cls, tier)
     n = ops.randint(2, 8 if tier == "quick" else 16)
-    steps = [_mk_step(ops, ops.choice(A), 0.25) for _ in range(n)]
+    # calls (which may move the shape and move it back) weigh twice a plain getter
+    W = [(q, 2.0 if q[0] != "get" else 1.0) for q in A]
+    steps = [_mk_step(ops, ops.weighted(W), 0.25) for _ in range(n)]
+    if ops.chance(0.5):
+        # hand-out prefix: first take references to internal arrays, then query
+        arr = _array_getters(cls, base)
+        if arr:
+            pre = [_mk_step(ops, ("get", ops.choice(arr), ""), 0.0)
+                   for _ in range(ops.randint(1, 2))]
+            for p in pre:
+                p["repeat"] = False
+            steps = pre + steps
     if forced:
         for pos, k in enumerate(forced[1]):
             if pos < len(steps):
@@ -218,7 +259,11 @@ def build_call(obj, st):
             return (lambda: obj.compute_form_factor_amplitude(q, density=2.5)), [("q", q)]
         return (lambda: obj.compute_form_factor_amplitude(q)), [("q", q)]
     if name == "distance_to_surface":
-        a = np.array([rng.uniform(0, 2 * np.pi) for _ in range(6)])
+        if variant == "angles_wide":
+            # legal but unusual: negative angles, angles beyond one turn, the end point 2*pi
+            a = np.array([rng.uniform(-4 * np.pi, 6 * np.pi) for _ in range(5)] + [2 * np.pi, 0.0])
+        else:
+            a = np.array([rng.uniform(0, 2 * np.pi) for _ in range(6)])
         return (lambda: obj.distance_to_surface(a)), [("angles", a)]
     if name == "get_face_area":
         nf = len(obj.faces)
